@@ -11,7 +11,7 @@ Section Query.
   Lemma print_matchers_len cls ms : (length ms <= length (print_matchers anch re_names cls ms))%nat.
   Proof.
     induction ms as [|m t IH]; [cbn; lia|]. destruct t as [|m2 t']; [cbn; lia|].
-    change (print_matchers anch re_names cls (m :: m2 :: t')) with (print_matcher anch re_names cls m ++ plain TComma [] :: print_matchers anch re_names cls (m2 :: t')).
+    change (print_matchers anch re_names cls (m :: m2 :: t')) with (print_matcher anch re_names cls m ++ punct TComma :: print_matchers anch re_names cls (m2 :: t')).
     rewrite app_length. cbn [length print_matcher] in *. lia.
   Qed.
   Lemma print_selector_len cls ms : (length ms < length (print_selector anch re_names cls ms))%nat.
@@ -65,9 +65,9 @@ Section Query.
     { unfold toks. rewrite app_length. pose proof (print_selector_len cls sel). pose proof (stages_fuel sts [] Hchain). lia. }
     remember (16 * length toks + 64)%nat as fuel eqn:Ef. destruct fuel as [|f]; [lia|].
     cbn [parse_core]. unfold bind at 1, peek at 1. cbn [rest]. unfold toks at 1. unfold print_selector at 1. cbn [app].
-    change (is_ty (plain TOpenBrace []) TOpenBrace) with true. cbn iota.
+    change (is_ty (punct TOpenBrace) TOpenBrace) with true. cbn iota.
     unfold bind at 1.
-    change (plain TOpenBrace [] :: (print_matchers anch re_names cls sel ++ [plain TCloseBrace []]) ++ print_stages anch re_names sts) with toks.
+    change (punct TOpenBrace :: (print_matchers anch re_names cls sel ++ [punct TCloseBrace]) ++ print_stages anch re_names sts) with toks.
     unfold toks. rewrite (parse_selector_print anch re_names cls sel [] _ f Hsel); [|lia|exact Hnc].
     unfold bind at 1. rewrite <- (app_nil_r (print_stages anch re_names sts)).
     rewrite (pipeline_print_lemma anch re_names sts f false [] _ [] Hchain); [|lia].
@@ -83,13 +83,13 @@ Section Query.
     | RangeOpQuantile => TQuantileOverTime | RangeOpFirst => TFirstOverTime | RangeOpLast => TLastOverTime | RangeOpAbsent => TAbsentOverTime
     end.
 
-  Lemma range_op_of_tok o : range_op_of (plain (rangeop_tok o) []) = Some o.
+  Lemma range_op_of_tok o : range_op_of (punct (rangeop_tok o)) = Some o.
   Proof. destruct o; reflexivity. Qed.
-  Lemma rangeop_tok_not o : is_ty (plain (rangeop_tok o) []) TOpenBrace = false /\ is_ty (plain (rangeop_tok o) []) TOpenParen = false.
+  Lemma rangeop_tok_not o : is_ty (punct (rangeop_tok o)) TOpenBrace = false /\ is_ty (punct (rangeop_tok o)) TOpenParen = false.
   Proof. destruct o; split; reflexivity. Qed.
 
   Definition print_range_agg cls (o : rangeop) sel sts rtxt rns off : list token :=
-    plain (rangeop_tok o) [] :: plain TOpenParen [] :: print_logrange anch re_names cls sel sts rtxt rns off ++ [plain TCloseParen []].
+    punct (rangeop_tok o) :: punct TOpenParen :: print_logrange anch re_names cls sel sts rtxt rns off ++ [punct TCloseParen].
 
   Lemma print_range_len rtxt rns off : (3 <= length (print_range rtxt rns off))%nat.
   Proof. unfold print_range. destruct off as [[? ?]|]; cbn; lia. Qed.
@@ -108,7 +108,7 @@ Section Query.
   Lemma range_agg_core cls o sel sts rtxt rns off f p r :
     range_validate o None None false = true ->
     Forall (wf_lmatcher anch cls) sel -> Forall (fun m => ttype_eqb (cls (m_label m)) TCloseBrace = false) sel ->
-    chain_ok anch re_names sts (print_range rtxt rns off ++ plain TCloseParen [] :: r) ->
+    chain_ok anch re_names sts (print_range rtxt rns off ++ punct TCloseParen :: r) ->
     (length sel < f)%nat -> (fuel_needed sts < f)%nat -> no_grouping_ahead r ->
     parse_core (S f) CMetric1 {| prev := p; rest := print_range_agg cls o sel sts rtxt rns off ++ r |} =
       POk (range_expr o sel sts rns off) {| prev := rev (print_range_agg (fun _ => TIdent) o sel sts rtxt rns off) ++ p; rest := r |}.
@@ -118,18 +118,18 @@ Section Query.
     cbn [parse_core app]. unfold bind at 1, peek at 1. cbn [rest]. rewrite Hp. cbn iota. rewrite range_op_of_tok.
     unfold bind at 1, next at 1. cbn [rest prev].
     unfold bind at 1, consume at 1, bind at 1, next at 1. cbn [rest prev].
-    change (is_ty (plain TOpenParen []) TOpenParen) with true. cbn iota. cbn [ret].
+    change (is_ty (punct TOpenParen) TOpenParen) with true. cbn iota. cbn [ret].
     unfold bind at 1, peek at 1. cbn [rest]. unfold print_logrange at 1, print_selector at 1. cbn [app].
-    change (is_ty (plain TOpenBrace []) TNumber) with false. cbn iota.
+    change (is_ty (punct TOpenBrace) TNumber) with false. cbn iota.
     unfold bind at 1. cbn [ret].
-    change (plain TOpenBrace [] :: (((print_matchers anch re_names cls sel ++ [plain TCloseBrace []]) ++ print_stages anch re_names sts ++ print_range rtxt rns off) ++ [plain TCloseParen []]) ++ r)
-      with ((print_logrange anch re_names cls sel sts rtxt rns off ++ [plain TCloseParen []]) ++ r).
+    change (punct TOpenBrace :: (((print_matchers anch re_names cls sel ++ [punct TCloseBrace]) ++ print_stages anch re_names sts ++ print_range rtxt rns off) ++ [punct TCloseParen]) ++ r)
+      with ((print_logrange anch re_names cls sel sts rtxt rns off ++ [punct TCloseParen]) ++ r).
     rewrite <- app_assoc. cbn [app].
     unfold bind at 1.
-    rewrite (logrange_print_lemma anch re_names cls sel sts rtxt rns off _ (plain TCloseParen [] :: r) f Hsel Hnc Hchain Hf1 Hf2);
+    rewrite (logrange_print_lemma anch re_names cls sel sts rtxt rns off _ (punct TCloseParen :: r) f Hsel Hnc Hchain Hf1 Hf2);
       [|intros _; reflexivity|intros _; repeat split; reflexivity].
     unfold bind at 1, consume at 1, bind at 1, next at 1. cbn [rest prev].
-    change (is_ty (plain TCloseParen []) TCloseParen) with true. cbn iota. cbn [ret].
+    change (is_ty (punct TCloseParen) TCloseParen) with true. cbn iota. cbn [ret].
     unfold bind at 1, peek at 1. cbn [rest].
     assert (Hg : (is_ty (match r with [] => eof_tok | t :: _ => t end) TBy || is_ty (match r with [] => eof_tok | t :: _ => t end) TWithout) = false).
     { destruct r as [|t0 r']; [reflexivity|]. cbn in Hng. destruct Hng as [-> ->]. reflexivity. }
@@ -141,7 +141,7 @@ Section Query.
   Lemma range_agg_metric cls o sel sts rtxt rns off f p r :
     range_validate o None None false = true ->
     Forall (wf_lmatcher anch cls) sel -> Forall (fun m => ttype_eqb (cls (m_label m)) TCloseBrace = false) sel ->
-    chain_ok anch re_names sts (print_range rtxt rns off ++ plain TCloseParen [] :: r) ->
+    chain_ok anch re_names sts (print_range rtxt rns off ++ punct TCloseParen :: r) ->
     (length sel < f)%nat -> (fuel_needed sts < f)%nat -> no_grouping_ahead r -> no_binop_ahead r ->
     parse_core (S (S f)) CMetric {| prev := p; rest := print_range_agg cls o sel sts rtxt rns off ++ r |} =
       POk (range_expr o sel sts rns off) {| prev := rev (print_range_agg (fun _ => TIdent) o sel sts rtxt rns off) ++ p; rest := r |}.
@@ -157,7 +157,7 @@ Section Query.
   Theorem range_agg_parse_lemma cls o sel sts rtxt rns off :
     range_validate o None None false = true ->
     Forall (wf_lmatcher anch cls) sel -> Forall (fun m => ttype_eqb (cls (m_label m)) TCloseBrace = false) sel ->
-    chain_ok anch re_names sts (print_range rtxt rns off ++ [plain TCloseParen []]) ->
+    chain_ok anch re_names sts (print_range rtxt rns off ++ [punct TCloseParen]) ->
     parse_tokens (print_range_agg cls o sel sts rtxt rns off) =
       Parsed (ERange o {| r_sel := sel; r_range := rns; r_pipe := sts; r_unwrap := None; r_offset := option_map snd off |} None None).
   Proof.
@@ -171,7 +171,7 @@ Section Query.
     assert (Hf2 : (length sel < f2 /\ fuel_needed sts < f2)%nat) by lia.
     destruct (rangeop_tok_not o) as [Hb Hp].
     clear Ef. subst toks.
-    assert (Hhead : match print_range_agg cls o sel sts rtxt rns off with [] => eof_tok | t :: _ => t end = plain (rangeop_tok o) []) by reflexivity.
+    assert (Hhead : match print_range_agg cls o sel sts rtxt rns off with [] => eof_tok | t :: _ => t end = punct (rangeop_tok o)) by reflexivity.
     rewrite core_expr_metric by (rewrite Hhead; exact Hb).
     pose proof (range_agg_metric cls o sel sts rtxt rns off f2 [] [] Hval Hsel Hnc Hchain (proj1 Hf2) (proj2 Hf2) I I) as H.
     rewrite app_nil_r in H. rewrite H. reflexivity.
@@ -185,26 +185,26 @@ Section Query.
     | VectorOpSort => TSort | VectorOpSortDesc => TSortDesc
     end.
   Lemma vecop_tok_facts v :
-    vector_op_of (plain (vecop_tok v) []) = Some v /\ range_op_of (plain (vecop_tok v) []) = None /\
-    is_ty (plain (vecop_tok v) []) TOpenParen = false /\ is_ty (plain (vecop_tok v) []) TOpenBrace = false.
+    vector_op_of (punct (vecop_tok v)) = Some v /\ range_op_of (punct (vecop_tok v)) = None /\
+    is_ty (punct (vecop_tok v)) TOpenParen = false /\ is_ty (punct (vecop_tok v)) TOpenBrace = false.
   Proof. destruct v; repeat split; reflexivity. Qed.
 
-  Definition print_labels (ls : list bytes) : list token := plain TOpenParen [] :: print_names ls ++ [plain TCloseParen []].
-  Definition print_grouping (g : grouping) : list token := plain (if g_without g then TWithout else TBy) [] :: print_labels (g_labels g).
+  Definition print_labels (ls : list bytes) : list token := punct TOpenParen :: print_names ls ++ [punct TCloseParen].
+  Definition print_grouping (g : grouping) : list token := punct (if g_without g then TWithout else TBy) :: print_labels (g_labels g).
 
   Lemma labels_loop_print ls : forall fuel acc p r, ls <> [] -> (length ls <= fuel)%nat ->
-    labels_loop fuel acc {| prev := p; rest := print_names ls ++ plain TCloseParen [] :: r |} =
-      POk (acc ++ ls) {| prev := plain TCloseParen [] :: rev (print_names ls) ++ p; rest := r |}.
+    labels_loop fuel acc {| prev := p; rest := print_names ls ++ punct TCloseParen :: r |} =
+      POk (acc ++ ls) {| prev := punct TCloseParen :: rev (print_names ls) ++ p; rest := r |}.
   Proof.
     induction ls as [|l t IH]; intros fuel acc p r Hne Hf; [congruence|].
     destruct fuel as [|f]; [cbn in Hf; lia|].
     destruct t as [|l2 t'].
     - cbn. reflexivity.
-    - change (print_names (l :: l2 :: t')) with (plain TIdent l :: plain TComma [] :: print_names (l2 :: t')).
+    - change (print_names (l :: l2 :: t')) with (plain TIdent l :: punct TComma :: print_names (l2 :: t')).
       remember (print_names (l2 :: t')) as pn eqn:Epn.
       cbn [app labels_loop]. cbn. subst pn. rewrite IH; [|discriminate|cbn in *; lia].
       rewrite <- !app_assoc. cbn [app].
-      change (print_names (l :: l2 :: t')) with (plain TIdent l :: plain TComma [] :: print_names (l2 :: t')).
+      change (print_names (l :: l2 :: t')) with (plain TIdent l :: punct TComma :: print_names (l2 :: t')).
       cbn [rev]. rewrite <- ?app_assoc. reflexivity.
   Qed.
 
@@ -212,10 +212,10 @@ Section Query.
     parse_labels fuel {| prev := p; rest := print_labels ls ++ r |} = POk ls {| prev := rev (print_labels ls) ++ p; rest := r |}.
   Proof.
     intro Hf. unfold parse_labels, print_labels. cbn [app]. unfold bind at 1, consume at 1, bind at 1, next at 1. cbn [rest prev].
-    change (is_ty (plain TOpenParen []) TOpenParen) with true. cbn iota. cbn [ret].
+    change (is_ty (punct TOpenParen) TOpenParen) with true. cbn iota. cbn [ret].
     destruct ls as [|l t].
     - cbn. reflexivity.
-    - assert (Hh : exists tl, (print_names (l :: t) ++ [plain TCloseParen []]) ++ r = plain TIdent l :: tl) by (destruct t; cbn; eauto).
+    - assert (Hh : exists tl, (print_names (l :: t) ++ [punct TCloseParen]) ++ r = plain TIdent l :: tl) by (destruct t; cbn; eauto).
       destruct Hh as [tl Htl]. unfold bind at 1, peek at 1. cbn [rest]. rewrite Htl.
       change (is_ty (plain TIdent l) TCloseParen) with false. cbn iota. rewrite <- Htl. rewrite <- app_assoc. cbn [app].
       rewrite (labels_loop_print (l :: t) fuel [] _ r); [|discriminate|exact Hf].
@@ -228,16 +228,16 @@ Section Query.
     intro Hf. destruct g as [ls w]. unfold parse_grouping, print_grouping. cbn [g_labels g_without app].
     unfold bind at 1, next at 1. cbn [rest prev].
     destruct w.
-    - change (is_ty (plain TWithout []) TBy) with false. change (is_ty (plain TWithout []) TWithout) with true. cbn iota.
+    - change (is_ty (punct TWithout) TBy) with false. change (is_ty (punct TWithout) TWithout) with true. cbn iota.
       unfold bind at 1. cbn [ret]. unfold bind at 1. rewrite (labels_print ls fuel _ r Hf). unfold ret. f_equal.
       f_equal. cbn [rev]. rewrite <- ?app_assoc. reflexivity.
-    - change (is_ty (plain TBy []) TBy) with true. cbn iota.
+    - change (is_ty (punct TBy) TBy) with true. cbn iota.
       unfold bind at 1. cbn [ret]. unfold bind at 1. rewrite (labels_print ls fuel _ r Hf). unfold ret. f_equal.
       f_equal. cbn [rev]. rewrite <- ?app_assoc. reflexivity.
   Qed.
 
   Definition print_vec_agg cls (v : vectorop) (g : grouping) o sel sts rtxt rns off : list token :=
-    plain (vecop_tok v) [] :: print_grouping g ++ plain TOpenParen [] :: print_range_agg cls o sel sts rtxt rns off ++ [plain TCloseParen []].
+    punct (vecop_tok v) :: print_grouping g ++ punct TOpenParen :: print_range_agg cls o sel sts rtxt rns off ++ [punct TCloseParen].
 
   Lemma bind_POk {A B} (m : M A) (k : A -> M B) s a s' : m s = POk a s' -> (do x <- m; k x) s = k a s'.
   Proof. unfold bind. intros ->. reflexivity. Qed.
@@ -256,18 +256,18 @@ Section Query.
   (** parseVectorAggregationExpr with the grouping clause before the operand: whatever the operand parser returns is wrapped *)
   Lemma vec_agg_core f v g inner e p pin r :
     vector_validate v None (Some g) = true -> (length (g_labels g) <= f)%nat ->
-    is_ty (match inner ++ plain TCloseParen [] :: r with [] => eof_tok | t :: _ => t end) TNumber = false ->
-    parse_core f CMetric {| prev := plain TOpenParen [] :: rev (print_grouping g) ++ plain (vecop_tok v) [] :: p; rest := inner ++ plain TCloseParen [] :: r |} =
-      POk e {| prev := pin; rest := plain TCloseParen [] :: r |} ->
-    parse_core (S f) CMetric1 {| prev := p; rest := plain (vecop_tok v) [] :: print_grouping g ++ plain TOpenParen [] :: inner ++ plain TCloseParen [] :: r |} =
-      POk (EVecAgg v e None (Some g)) {| prev := plain TCloseParen [] :: pin; rest := r |}.
+    is_ty (match inner ++ punct TCloseParen :: r with [] => eof_tok | t :: _ => t end) TNumber = false ->
+    parse_core f CMetric {| prev := punct TOpenParen :: rev (print_grouping g) ++ punct (vecop_tok v) :: p; rest := inner ++ punct TCloseParen :: r |} =
+      POk e {| prev := pin; rest := punct TCloseParen :: r |} ->
+    parse_core (S f) CMetric1 {| prev := p; rest := punct (vecop_tok v) :: print_grouping g ++ punct TOpenParen :: inner ++ punct TCloseParen :: r |} =
+      POk (EVecAgg v e None (Some g)) {| prev := punct TCloseParen :: pin; rest := r |}.
   Proof.
     intros Hvv Hf Hnum Hin. destruct (vecop_tok_facts v) as [Hv [Hr [Hp Hb]]].
     cbn [parse_core].
     stepb. rewrite Hp. cbn iota. rewrite Hr, Hv.
     stepb. stepb.
-    assert (Hby : (is_ty (plain (if g_without g then TWithout else TBy) []) TBy || is_ty (plain (if g_without g then TWithout else TBy) []) TWithout) = true) by (destruct (g_without g); reflexivity).
-    change (match print_grouping g ++ plain TOpenParen [] :: inner ++ plain TCloseParen [] :: r with [] => eof_tok | t :: _ => t end) with (plain (if g_without g then TWithout else TBy) []).
+    assert (Hby : (is_ty (punct (if g_without g then TWithout else TBy)) TBy || is_ty (punct (if g_without g then TWithout else TBy)) TWithout) = true) by (destruct (g_without g); reflexivity).
+    change (match print_grouping g ++ punct TOpenParen :: inner ++ punct TCloseParen :: r with [] => eof_tok | t :: _ => t end) with (punct (if g_without g then TWithout else TBy)).
     rewrite Hby. cbn iota.
     erewrite bind_POk; [|erewrite bind_POk by (apply grouping_print; exact Hf); cbv beta;
                          erewrite bind_POk; [|stepb; stepb; stepb;
@@ -282,7 +282,7 @@ Section Query.
   Theorem vec_agg_parse_lemma cls v g o sel sts rtxt rns off :
     vector_validate v None (Some g) = true -> range_validate o None None false = true ->
     Forall (wf_lmatcher anch cls) sel -> Forall (fun m => ttype_eqb (cls (m_label m)) TCloseBrace = false) sel ->
-    chain_ok anch re_names sts (print_range rtxt rns off ++ [plain TCloseParen []; plain TCloseParen []]) ->
+    chain_ok anch re_names sts (print_range rtxt rns off ++ [punct TCloseParen; punct TCloseParen]) ->
     parse_tokens (print_vec_agg cls v g o sel sts rtxt rns off) = Parsed (EVecAgg v (range_expr o sel sts rns off) None (Some g)).
   Proof.
     intros Hvv Hval Hsel Hnc Hchain. unfold parse_tokens.
@@ -296,7 +296,7 @@ Section Query.
     assert (Hf : (length sel < fuel /\ fuel_needed sts < fuel /\ length (g_labels g) <= S (S fuel))%nat) by lia.
     destruct (vecop_tok_facts v) as [Hv [Hr [Hp Hb]]].
     clear Ef Hlen. subst toks.
-    assert (Hhead : match print_vec_agg cls v g o sel sts rtxt rns off with [] => eof_tok | t :: _ => t end = plain (vecop_tok v) []) by reflexivity.
+    assert (Hhead : match print_vec_agg cls v g o sel sts rtxt rns off with [] => eof_tok | t :: _ => t end = punct (vecop_tok v)) by reflexivity.
     rewrite core_expr_metric by (rewrite Hhead; exact Hb).
     rewrite core_metric. unfold bind at 1.
     unfold print_vec_agg.
@@ -305,6 +305,6 @@ Section Query.
     - exact Hvv.
     - exact (proj2 (proj2 Hf)).
     - destruct o; reflexivity.
-    - apply (range_agg_metric cls o sel sts rtxt rns off fuel _ [plain TCloseParen []] Hval Hsel Hnc Hchain (proj1 Hf) (proj1 (proj2 Hf))); [split; reflexivity|reflexivity].
+    - apply (range_agg_metric cls o sel sts rtxt rns off fuel _ [punct TCloseParen] Hval Hsel Hnc Hchain (proj1 Hf) (proj1 (proj2 Hf))); [split; reflexivity|reflexivity].
   Qed.
 End Query.
